@@ -23,7 +23,10 @@ pub fn generate_queries(
         })
         .collect();
 
+    // Sort and remove repeated indices (as the prover and the Cairo verifier's `usort` do): the
+    // decommitments contain one row per distinct query.
     samples.sort();
+    samples.dedup();
     samples
 }
 
